@@ -50,8 +50,7 @@ Ltac cmp_facts o n x :=
   pose proof (lex_cmp_eq n o); pose proof (lex_cmp_eq o x); pose proof (lex_cmp_eq n x).
 
 Lemma cover_chain_spec o n x :
-  cover_chain o n x = true <->
-  strictly_between_circular o x n \/ (x = o /\ slt o n).
+  cover_chain o n x = true <-> strictly_between_circular o x n.
 Proof.
   unfold cover_chain, strictly_between_circular, str_eq, str_gt, str_lt, slt.
   cmp_facts o n x.
@@ -59,17 +58,6 @@ Proof.
     intuition (try congruence; try discriminate);
     try (subst; rewrite ?lex_cmp_refl in *; congruence).
 Qed.
-
-Lemma cover_chain_fixed_spec o n x :
-  cover_chain_fixed o n x = true <-> strictly_between_circular o x n.
-Proof.
-  unfold cover_chain_fixed, strictly_between_circular, str_eq, str_gt, str_lt, slt.
-  cmp_facts o n x.
-  destruct (lex_cmp o n) eqn:Eon, (lex_cmp x o) eqn:Exo, (lex_cmp x n) eqn:Exn; cbn in *;
-    intuition (try congruence; try discriminate);
-    try (subst; rewrite ?lex_cmp_refl in *; congruence).
-Qed.
-
 
 (* ---------- RFC 5155 iterated hash = the loop of HashName ---------- *)
 Section Hash.
@@ -199,103 +187,65 @@ Section Hash.
   Qed.
 
   (* ---------- Cover (record level) ---------- *)
-  Lemma cover_iff_except_owner r name oh z zs :
+  Lemma cover_iff r name oh z zs :
     n3_owner r = oh :: z :: zs ->
     in_zone (z :: zs) name = true ->
-    hash_name H name (n3_alg r) (n3_iter r) (n3_salt r) <> owner_hash_text oh ->
+    hash_name H name (n3_alg r) (n3_iter r) (n3_salt r) <> [] ->
     (nsec3_cover H r name = true <->
      strictly_between_circular (owner_hash_text oh)
-       (hash_name H name (n3_alg r) (n3_iter r) (n3_salt r)) (n3_next r)).
+       (hash_name H name (n3_alg r) (n3_iter r) (n3_salt r)) (next_hash_text r)).
   Proof.
-    intros Ho Hz Hne. unfold nsec3_cover. rewrite Ho, Hz, cover_chain_spec. tauto.
-  Qed.
-
-  Lemma cover_exact r name oh z zs :
-    n3_owner r = oh :: z :: zs ->
-    in_zone (z :: zs) name = true ->
-    (nsec3_cover H r name = true <->
-     let xh := hash_name H name (n3_alg r) (n3_iter r) (n3_salt r) in
-     strictly_between_circular (owner_hash_text oh) xh (n3_next r) \/
-     (xh = owner_hash_text oh /\ slt (owner_hash_text oh) (n3_next r))).
-  Proof.
-    intros Ho Hz. unfold nsec3_cover. rewrite Ho, Hz. apply cover_chain_spec.
+    intros Ho Hz Hne. unfold nsec3_cover. rewrite Ho, Hz.
+    destruct (hash_name H name (n3_alg r) (n3_iter r) (n3_salt r)) as [|b xh]; [congruence|].
+    apply cover_chain_spec.
   Qed.
 
   Lemma cover_outside r name oh zone :
     n3_owner r = oh :: zone -> in_zone zone name = false -> nsec3_cover H r name = false.
   Proof.
-    intros Ho Hz. unfold nsec3_cover. rewrite Ho. destruct zone; [reflexivity|]. now rewrite Hz.
+    intros Ho Hz. unfold nsec3_cover. rewrite Ho.
+    destruct (hash_name H name (n3_alg r) (n3_iter r) (n3_salt r)); [reflexivity|].
+    destruct zone; [reflexivity|]. now rewrite Hz.
   Qed.
 
-  (* the deviation: a name whose hash equals the owner hash is reported covered
-     whenever owner hash < next hash *)
-  Lemma cover_hash_equals_owner r name oh z zs :
+  (* a name without hash (unsupported algorithm, undecodable salt, invalid name) is never covered *)
+  Lemma cover_without_hash r name :
+    hash_name H name (n3_alg r) (n3_iter r) (n3_salt r) = [] -> nsec3_cover H r name = false.
+  Proof. intros E. unfold nsec3_cover. now rewrite E. Qed.
+
+  Lemma hash_name_unsupported name ha iter salt : ha <> 1 -> hash_name H name ha iter salt = [].
+  Proof. intros Ha. unfold hash_name. destruct (N.eqb_spec ha 1); [contradiction|reflexivity]. Qed.
+
+  (* a name that matches is not covered *)
+  Lemma match_not_cover r name oh z zs :
     n3_owner r = oh :: z :: zs ->
-    in_zone (z :: zs) name = true ->
-    hash_name H name (n3_alg r) (n3_iter r) (n3_salt r) = owner_hash_text oh ->
-    slt (owner_hash_text oh) (n3_next r) ->
-    nsec3_cover H r name = true /\
-    ~ strictly_between_circular (owner_hash_text oh)
-        (hash_name H name (n3_alg r) (n3_iter r) (n3_salt r)) (n3_next r).
+    nsec3_match H r name = true -> nsec3_cover H r name = false.
   Proof.
-    intros Ho Hz He Hlt. split.
-    - apply (cover_exact r name oh z zs Ho Hz). right. now split.
-    - rewrite He. unfold strictly_between_circular, slt in *.
-      intros [[_ [A _]]|[[A _]|[A B]]].
-      + rewrite lex_cmp_refl in A. discriminate.
-      + rewrite (lex_cmp_antisym (owner_hash_text oh) (n3_next r)), Hlt in A. discriminate.
-      + congruence.
+    intros Ho Hm. unfold nsec3_match in Hm. rewrite Ho in Hm.
+    destruct (in_zone (z :: zs) name) eqn:Hz; [|discriminate].
+    unfold match_chain in Hm. apply str_eq_iff in Hm.
+    destruct (nsec3_cover H r name) eqn:Hc; [|reflexivity]. exfalso.
+    assert (Hne : hash_name H name (n3_alg r) (n3_iter r) (n3_salt r) <> []).
+    { intros E. rewrite (cover_without_hash r name E) in Hc. discriminate. }
+    apply (cover_iff r name oh z zs Ho Hz Hne) in Hc. rewrite <- Hm in Hc.
+    unfold strictly_between_circular, slt in Hc.
+    destruct Hc as [[_ [A _]]|[[A [B|B]]|[A B]]].
+    - rewrite lex_cmp_refl in A. discriminate.
+    - rewrite lex_cmp_refl in B. discriminate.
+    - rewrite (lex_cmp_antisym (next_hash_text r) (owner_hash_text oh)), A in B. discriminate.
+    - congruence.
   Qed.
 End Hash.
-
-(* A concrete refutation of "Cover <-> strictly between" on the model of the
-   code, for every hash function: the NSEC3 RR whose owner label is the hash of
-   the name itself and whose next hash is larger. *)
-Lemma cover_iff_refuted_witness (H : bytes -> bytes) :
-  let name := [[97]; [122]] in                      (* a.z. *)
-  let xh := hash_name H name 1 0 (Some []) in
-  forall oh, owner_hash_text oh = xh -> slt xh (xh ++ [0]) ->
-  let r := {| n3_owner := [oh; [122]]; n3_alg := 1; n3_iter := 0; n3_salt := Some [];
-              n3_next := xh ++ [0] |} in
-  nsec3_cover H r name = true /\ ~ strictly_between_circular (owner_hash_text oh) xh (n3_next r).
-Proof.
-  intros name xh oh Hoh Hlt r.
-  apply (cover_hash_equals_owner H r name oh [122] [] eq_refl); cbn [n3_alg n3_iter n3_salt n3_next r].
-  - reflexivity.
-  - symmetry. exact Hoh.
-  - rewrite Hoh. exact Hlt.
-Qed.
 
 Lemma slt_snoc a b : slt a (a ++ [b]).
 Proof. unfold slt. induction a as [|x a IHa]; cbn; [reflexivity|]. now rewrite N.compare_refl. Qed.
 
-(* purely on the comparison chain (no hash needed) *)
-Lemma cover_chain_refuted :
-  exists o n x, cover_chain o n x = true /\ ~ strictly_between_circular o x n.
-Proof.
-  exists [48], [49], [48]. split; [reflexivity|].
-  unfold strictly_between_circular, slt. cbn. intros [[_ [A _]]|[[A _]|[A _]]]; discriminate.
-Qed.
-
 (* root zone: an owner name with a single label never matches or covers *)
 Lemma root_zone_never (H : bytes -> bytes) r name oh :
   n3_owner r = [oh] -> nsec3_match H r name = false /\ nsec3_cover H r name = false.
-Proof. intros Ho. unfold nsec3_match, nsec3_cover. now rewrite Ho. Qed.
-
-(* unsupported hash algorithm: the name hash is the empty string, which the
-   chain reports as covered in a wrapping or empty interval *)
-Lemma cover_unsupported_alg (H : bytes -> bytes) r name oh z zs :
-  n3_owner r = oh :: z :: zs -> in_zone (z :: zs) name = true ->
-  n3_alg r <> 1 -> owner_hash_text oh <> [] -> n3_next r <> [] ->
-  slt (n3_next r) (owner_hash_text oh) \/ n3_next r = owner_hash_text oh ->
-  nsec3_cover H r name = true.
 Proof.
-  intros Ho Hz Ha Hne Hnn Hw. unfold nsec3_cover. rewrite Ho, Hz.
-  unfold hash_name. destruct (N.eqb_spec (n3_alg r) 1) as [E|_]; [contradiction|]. cbn [negb].
-  apply cover_chain_spec. left. unfold strictly_between_circular.
-  destruct Hw as [Hw|Hw].
-  - right. left. split; [exact Hw|]. right. unfold slt. destruct (n3_next r); [contradiction|reflexivity].
-  - right. right. split; congruence.
+  intros Ho. unfold nsec3_match, nsec3_cover. rewrite Ho. split; [reflexivity|].
+  now destruct (hash_name H name (n3_alg r) (n3_iter r) (n3_salt r)).
 Qed.
 
 (* ---------- Examples (non-vacuity) ---------- *)
@@ -328,8 +278,9 @@ Proof. vm_compute. repeat split. discriminate. Qed.
 Example match_cover_ex :
   in_zone [[69; 120]] ex_name = true /\ owner_hash_text (lower_bytes ex_hash) = ex_hash /\
   nsec3_match toyH (ex_rec [86]) ex_name = true /\
-  nsec3_cover toyH (ex_rec [86]) ex_name = true /\              (* the deviation: hash = owner hash, owner < next *)
+  nsec3_cover toyH (ex_rec [86]) ex_name = false /\             (* hash = owner hash: matched, not covered *)
   nsec3_cover toyH (ex_rec [48]) ex_name = false /\
-  nsec3_cover toyH {| n3_owner := [[48]; [69; 120]]; n3_alg := 1; n3_iter := 2; n3_salt := Some [170]; n3_next := [86] |} ex_name = true /\
+  nsec3_cover toyH {| n3_owner := [[48]; [69; 120]]; n3_alg := 1; n3_iter := 2; n3_salt := Some [170]; n3_next := [118] |} ex_name = true /\
+  nsec3_cover toyH {| n3_owner := [[48]; [69; 120]]; n3_alg := 2; n3_iter := 2; n3_salt := Some [170]; n3_next := [118] |} ex_name = false /\
   nsec3_cover toyH {| n3_owner := [[48]; [69; 120]]; n3_alg := 1; n3_iter := 2; n3_salt := Some [170]; n3_next := [86] |} [[87]; [111]] = false.
 Proof. vm_compute. repeat split. Qed.
